@@ -239,12 +239,13 @@ class FunctionRun:
             if isinstance(v.ty, TGraph):
                 st.assume(v.t >= 0, v.t < self.entry_next_gid)
                 st.assume(*st.heap.wf_graph(v.t))
+        if any(isinstance(v.ty, TGraph) for v in st.env.values() if isinstance(v, Val)):
+            st.assume(*st.heap.wf_refs())
         # ghosts
         for g, (ty, init) in c.ghosts.items():
             st.env[g] = ops.coerce(self.spec_expr(init, st, None), parse_type(ty))
         self.entry = st.copy()
-        mods = [self.spec_expr(m, st, None) for m in c.modifies]
-        self.mod_terms = [m.t for m in mods]
+        self.mod_terms = self.parse_mods(c.modifies, st, None)
         st.writable = self._writable_pred(self.mod_terms, self.entry_next_gid)
         for r in c.requires:
             st.assume(self.spec_bool(r, st, None))
@@ -256,9 +257,44 @@ class FunctionRun:
         return self.obligations
 
     def _writable_pred(self, mod_terms, fresh_from):
-        def pred(g):
-            return z3.Or(g >= fresh_from, *[g == m for m in mod_terms])
+        def pred(g, comps=None):
+            alts = [g >= fresh_from]
+            for m, cs in mod_terms:
+                if cs is None or (comps is not None and all(c in cs for c in comps)):
+                    alts.append(g == m)
+            return z3.Or(*alts)
         return pred
+
+    def parse_mods(self, texts, st, old):
+        """'G' (whole graph) or 'G:attr:position,nodes,edges,eattr:order' (listed components only)."""
+        out = []
+        for text in texts:
+            if ':' in text:
+                expr, comps = text.split(':', 1)
+                cs = set()
+                for c in comps.split(','):
+                    c = c.strip()
+                    if c.startswith('attr:'):
+                        name = c[5:]
+                        for sch in ('mol', 'tmpl'):
+                            from .heap import NODE_SCHEMAS
+                            if name in NODE_SCHEMAS[sch]:
+                                cs.add('nh:' + NODE_SCHEMAS[sch][name][0])
+                                cs.add('nv:' + NODE_SCHEMAS[sch][name][0])
+                    elif c.startswith('eattr:'):
+                        from .heap import EDGE_SCHEMA
+                        cs.add('eh:' + EDGE_SCHEMA[c[6:]][0])
+                        cs.add('ev:' + EDGE_SCHEMA[c[6:]][0])
+                    elif c == 'nodes':
+                        cs.update(['nodes', 'hasn', 'nidx', 'rest'])
+                    elif c == 'edges':
+                        cs.update(['hase', 'elist', 'eidx'])
+                    else:
+                        raise Unsupported('unknown frame component ' + c)
+                out.append((self.spec_expr(expr, st, old).t, cs))
+            else:
+                out.append((self.spec_expr(text, st, old).t, None))
+        return out
 
     def finish(self, outs):
         c = self.c
@@ -462,6 +498,8 @@ class FunctionRun:
     # ------------------------------------------------------------------ loops
     def _assigned_names(self, stmts):
         names = set()
+        rebound = set()
+        self._rebound = rebound
 
         def base_name(t):
             while isinstance(t, (ast.Subscript, ast.Attribute)):
@@ -473,6 +511,7 @@ class FunctionRun:
         def tgt(t):
             if isinstance(t, ast.Name):
                 names.add(t.id)
+                rebound.add(t.id)
             elif isinstance(t, (ast.Tuple, ast.List)):
                 for e in t.elts:
                     tgt(e)
@@ -549,6 +588,8 @@ class FunctionRun:
     def _havoc(self, st, names, loop_mod_terms, entry_heap):
         for n in sorted(names):
             if n in st.env and isinstance(st.env[n], Val):
+                if isinstance(st.env[n].ty, TGraph) and n not in getattr(self, '_rebound_now', set()):
+                    continue      # a graph reference that is only written through (heap write), never re-bound
                 nv = fresh(st.env[n].ty, n)
                 st.env[n] = nv
                 st.assume(*ops.wf_axioms(nv))
@@ -572,17 +613,19 @@ class FunctionRun:
         g = z3.Int(fresh_name('fg'))
         old_next = before.get('next_gid')
         fresh_from = fresh_from if fresh_from is not None else old_next
-        outside = z3.And(g < fresh_from, *[g != m for m in mod_terms])
         for comp in before.components():
             if comp not in before.c:
                 # untouched so far: keep sharing the same unconstrained constant
                 continue
+            may_change = [m for m, cs in mod_terms if cs is None or comp in cs]
+            outside = z3.And(g < fresh_from, *[g != m for m in may_change])
             st.assume(z3.ForAll([g], z3.Implies(outside, new.get(comp)[g] == before.get(comp)[g]),
                                 patterns=[new.get(comp)[g]]))
         for comp in before.components():
             if comp not in before.c:
                 new.c[comp] = before.get(comp)
         st.assume(new.get('next_gid') >= old_next)
+        st.assume(*new.wf_refs())
         st.heap = new
 
     def loop_spec(self, s):
@@ -609,7 +652,10 @@ class FunctionRun:
         for j, e in enumerate(inv):
             self.oblige(st, 'inv-init', self.spec_bool(e, st, self.entry), s, 'L%d.%d' % (k, j), detail=e)
         # 2. arbitrary iteration
-        names = self._assigned_names(s.body) | self._assigned_names([ast.Assign(targets=[s.target], value=ast.Constant(0))])
+        names = self._assigned_names(s.body)
+        rb = set(self._rebound)
+        names = names | self._assigned_names([ast.Assign(targets=[s.target], value=ast.Constant(0))])
+        self._rebound_now = rb | set(self._rebound)
         mods = self._loop_mods(spec, st) if self._touches_heap(s.body) else None
         head = st.copy()
         self._havoc(head, names, mods, st.heap)
@@ -649,7 +695,7 @@ class FunctionRun:
 
     def _loop_mods(self, spec, st):
         if spec is not None and spec.modifies is not None:
-            return [self.spec_expr(m, st, self.entry).t for m in spec.modifies]
+            return self.parse_mods(spec.modifies, st, self.entry)
         return list(self.mod_terms)
 
     def st_While(self, s, st):
@@ -668,6 +714,7 @@ class FunctionRun:
         for j, e in enumerate(inv):
             self.oblige(st, 'inv-init', self.spec_bool(e, st, self.entry), s, 'L%d.%d' % (k, j), detail=e)
         names = self._assigned_names(s.body)
+        self._rebound_now = set(self._rebound)
         mods = self._loop_mods(spec, st) if self._touches_heap(s.body) else None
         head = st.copy()
         self._havoc(head, names, mods, st.heap)
